@@ -192,11 +192,22 @@ def expected_amounts(v, kind, dc):
     return out
 
 
-def check_text(ctx, desc, rows, kinds, dc, opts, case):
+def check_text(ctx, desc, rows, kinds, dc, opts, case, route='direct'):
     from beanquery import query_render
     out = io.StringIO()
     try:
-        query_render.render_text(desc, rows, dc, out, **opts)
+        if route == 'plugin':
+            # the way the shell and `bean-query --format text` reach the renderer
+            import importlib
+            plug = importlib.import_module('beanquery.render.text')
+            plug.render(desc, rows, out, dcontext=dc, **opts)
+            ctx.count('obs.text_renderings_plugin_route')
+            if not rows:
+                if out.getvalue() != '(empty)\n':
+                    ctx.violation('c16.plugin_empty_marker', f'text plug-in wrote {out.getvalue()!r} for an empty result', case)
+                return None
+        else:
+            query_render.render_text(desc, rows, dc, out, **opts)
     except PostBroken as exc:
         ctx.violation('c16.not_rectangular', f'{exc}', case)
         return None
@@ -366,11 +377,17 @@ def check_text(ctx, desc, rows, kinds, dc, opts, case):
     return text
 
 
-def check_csv(ctx, desc, rows, kinds, dc, opts, case, text_cells=None):
+def check_csv(ctx, desc, rows, kinds, dc, opts, case, text_cells=None, route='direct'):
     from beanquery import query_render
     out = io.StringIO()
     try:
-        query_render.render_csv(desc, rows, dc, out, expand=opts['expand'], nullvalue=opts['nullvalue'])
+        if route == 'plugin':
+            import importlib
+            plug = importlib.import_module('beanquery.render.csv')
+            plug.render(desc, rows, out, dcontext=dc, expand=opts['expand'], nullvalue=opts['nullvalue'])
+            ctx.count('obs.csv_renderings_plugin_route')
+        else:
+            query_render.render_csv(desc, rows, dc, out, expand=opts['expand'], nullvalue=opts['nullvalue'])
     except Exception as exc:  # noqa: BLE001
         ctx.violation(f'c16.render_csv_raised.{type(exc).__name__}', f'render_csv raised {type(exc).__name__}: {exc}', case)
         return
@@ -442,12 +459,12 @@ def run_one(ctx, rng, desc, rows, kinds, dc, opts, label):
     ctx.case((repr(case['description']), repr(case['rows']), repr(sorted(opts.items()))), len(rows) >= 2 and len(desc) >= 2)
     if len(ctx.samples) < 3 and len(rows) >= 2 and len(desc) >= 2:
         ctx.sample(case)
-    if rows:
-        check_text(ctx, desc, rows, kinds, dc, opts, case)
-    else:
-        # the renderer itself (the "(empty)" convention belongs to the shell format plug-in)
-        check_text(ctx, desc, rows, kinds, dc, opts, case)
-    check_csv(ctx, desc, rows, kinds, dc, opts, case)
+    # the renderer itself, called with keywords, or through the format plug-in the shell uses (which adds the "(empty)"
+    # convention for empty results)
+    route = 'plugin' if rng.random() < 0.35 else 'direct'
+    case['route'] = route
+    check_text(ctx, desc, rows, kinds, dc, opts, case, route=route)
+    check_csv(ctx, desc, rows, kinds, dc, opts, case, route=route)
 
 
 def random_case(ctx, n):
@@ -501,6 +518,8 @@ def replay(ctx, case):
 def finalize(merged):
     c = merged['counters']
     reasons = []
+    if c.get('obs.text_renderings_plugin_route', 0) == 0 or c.get('obs.csv_renderings_plugin_route', 0) == 0:
+        reasons.append('nothing rendered through the format plug-ins')
     for k in ('obs.text_renderings', 'obs.csv_renderings', 'obs.cells_read_back', 'obs.contract_evaluations', 'fixed.executed'):
         if c.get(k, 0) == 0:
             reasons.append(f'{k} == 0')
